@@ -324,6 +324,10 @@ func run(tb ev.TB, c xCase) (labels []string, nontrivial bool) {
 					switch k.Kind {
 					case "offset":
 						req = &listoffsets.Request{ReplicaID: -1, Topics: []listoffsets.RequestTopic{{Topic: "t", Partitions: []listoffsets.RequestPartition{{Partition: 0, CurrentLeaderEpoch: -1, Timestamp: int64(k.Tag)}}}}}
+					case "offsets2":
+						// a request the Transport splits into two sub-requests (one per entry); a fault on the call delays the first
+						req = &listoffsets.Request{ReplicaID: -1, Topics: []listoffsets.RequestTopic{{Topic: "t", Partitions: []listoffsets.RequestPartition{
+							{Partition: 0, CurrentLeaderEpoch: -1, Timestamp: int64(k.Tag)}, {Partition: 0, CurrentLeaderEpoch: -1, Timestamp: int64(k.Tag + 100000)}}}}}
 					case "partitions":
 						req = &metadata.Request{TopicNames: []string{topicName(k.Tag)}}
 					case "write":
@@ -342,6 +346,25 @@ func run(tb ev.TB, c xCase) (labels []string, nontrivial bool) {
 					if err == nil {
 						switch r := res.(type) {
 						case *listoffsets.Response:
+							if k.Kind == "offsets2" {
+								var got []string
+								failed := false
+								for _, tp := range r.Topics {
+									for _, pp := range tp.Partitions {
+										failed = failed || pp.ErrorCode != 0
+										got = append(got, fmt.Sprintf("ts%d->%d", pp.Timestamp, pp.Offset))
+									}
+								}
+								if failed {
+									o.got, o.want = "", "" // a sub-request failed (cut, deadline): reported on that entry, nothing to compare
+									break
+								}
+								sort.Strings(got)
+								want := []string{fmt.Sprintf("ts%d->%d", k.Tag, k.Tag+7), fmt.Sprintf("ts%d->%d", k.Tag+100000, k.Tag+100007)}
+								sort.Strings(want)
+								o.got, o.want = strings.Join(got, " "), strings.Join(want, " ")
+								break
+							}
 							o.got, o.want = fmt.Sprint(r.Topics[0].Partitions[0].Offset, r.Topics[0].Partitions[0].Timestamp), fmt.Sprint(k.Tag+7, k.Tag)
 						case *metadata.Response:
 							var ns []string
@@ -455,7 +478,7 @@ func genCase(t *rapid.T, mode string) xCase {
 	if mode == "transport" {
 		c.Brokers = rapid.IntRange(1, 3).Draw(t, "brokers")
 		c.IdleMs = rapid.SampledFrom([]int{1, 5, 50, 1000}).Draw(t, "idleMs")
-		kinds = []string{"offset", "partitions", "write", "coordinator", "committed", "fetch"}
+		kinds = []string{"offset", "offsets2", "offsets2", "partitions", "write", "coordinator", "committed", "fetch"}
 	} else {
 		c.DeadlineMs = rapid.SampledFrom([]int{0, 0, 0, 30, 120}).Draw(t, "deadlineMs")
 	}
